@@ -437,13 +437,13 @@ def _tq_append(E, obj, args, kwargs, st, node):
 
 @contract("rig/place_and_route/routing_tree.py::RoutingTree.traverse@whilebody:0")
 class TraverseNode:
-    """one node (here with a subtree, a leaf with a route and a leaf without): the hop yielded is (the direction the node was
+    """one node (here with a leaf that may have no route LISTED FIRST, then a subtree, then a leaf with a route): the hop yielded is (the direction the node was
     reached by, its chip, the set of the directions of ALL its children that have one - subtrees and leaves alike); exactly the
     children that are subtrees are queued, each with its own direction"""
     properties = ("C10", "C01")
     params = dict(to_visit=_TRec10("Queue"), g_direction=TOpt(TInt(0, 5)),
                   g_node=_TRec10("RoutingTree", chip=TTuple(TInt(0, 255), TInt(0, 255)),
-                                 children=TList(TTuple(TInt(0, 5), SUBTREE), TTuple(TInt(6, 23), LEAF), TTuple(TOpt(TInt(0, 23)), LEAF))))
+                                 children=TList(TTuple(TOpt(TInt(0, 23)), LEAF), TTuple(TInt(0, 5), SUBTREE), TTuple(TInt(6, 23), LEAF))))
     fragment_result = ()
     fragment_head = "while to_visit:"
     externals = {"Queue.popleft": _tq_popleft, "Queue.append": _tq_append}
@@ -458,5 +458,5 @@ class TraverseNode:
         c = g_node.children
         hop = _yielded[0]
         return (len(_yielded) == 1 and hop[0] == g_direction and hop[1] == g_node.chip
-                and all((r in hop[2]) == (r == c[0][0] or r == c[1][0] or (c[2][0] is not None and r == c[2][0])) for r in ROUTES)
-                and len(_trace) == 1 and _trace[0] == ("queued", c[0][0], c[0][1].ident))
+                and all((r in hop[2]) == (r == c[1][0] or r == c[2][0] or (c[0][0] is not None and r == c[0][0])) for r in ROUTES)
+                and len(_trace) == 1 and _trace[0] == ("queued", c[1][0], c[1][1].ident))
